@@ -11,18 +11,25 @@ extracted `PIPELINE_MAX_SIZE_IN_DOCS`, or a number); a call is `<c>` or `<c>:<ph
            `x` the operator removes an orphaned writer lock file
   phases : `lo` `lf` `ld` lock open/flush/delete · `cr` reads in IndexWriter::new · `wk` worker ·
            `pu` purge · `sm` save_metas · `gl` `gd` `gm` GC lock/delete/managed.json ·
-           `mt` merge thread · `ep` `es` end_merge purge/save · `rl` reload
+           `mt` merge thread · `ep` `es` end_merge purge/save · `rl` reload ·
+           `s2` `e2` the directory sync after the meta.json rename (commit / end_merge)
 response: `<res>,<res>,…|<content of meta.json as doc ids>|<stale lock 0/1>|<searcher content>`
 -/
 namespace TantivyModel.Driver.C11
 open TantivyModel TantivyModel.Proto TantivyModel.Faults
 
+/-- With the guard built before the flush (`Gen.LOCK_GUARD_BEFORE_FLUSH = 1`) a failing flush of
+the new lock file drops the guard, i.e. it is, for the lock, a failing construction: the driver
+maps the observed phase accordingly, so the model follows the code as it is. -/
+def lockFlushPhase : Phase := if Gen.LOCK_GUARD_BEFORE_FLUSH == 1 then .ctorRead else .lockFlush
+
 def phaseOf : String → Option Phase
-  | "lo" => some .lockOpen | "lf" => some .lockFlush | "ld" => some .lockDelete
+  | "lo" => some .lockOpen | "lf" => some lockFlushPhase | "ld" => some .lockDelete
   | "cr" => some .ctorRead | "wk" => some .worker | "pu" => some .purge | "sm" => some .saveMeta
   | "gl" => some .gcLock | "gd" => some .gcDelete | "gm" => some .gcManaged
   | "mt" => some .mergeThread | "ep" => some .endMergePurge | "es" => some .endMergeSave
   | "rl" => some .reload
+  | "s2" => some .saveSync2 | "e2" => some .endMergeSync2
   | _ => none
 
 def callOf (t : String) : Option Call :=
@@ -56,7 +63,7 @@ def handle : List String → String
     | some cap, some cps =>
       let plans : List (List Phase) := cps.map (·.2)
       let F : Nat → Plan := fun i p => (plans.getD i []).contains p
-      let r := run cap F 0 init (cps.map (·.1))
+      let r := run codeSync2 cap F 0 init (cps.map (·.1))
       (if r.2.isEmpty then "-" else ",".intercalate (r.2.map showRes)) ++ "|" ++
         showNatList (content r.1.metaSegs) ++ "|" ++ showBool (stale r.1) ++ "|" ++
         showNatList (content r.1.searcher)
